@@ -9,6 +9,7 @@ import (
 type commitable[T any] struct {
 	comittedValue T
 	stagedValue   typeutils.Optional[T]
+	previousValue typeutils.Optional[T] // The value replaced by the last Commit, kept for Rollback
 }
 
 func NewCommitable[T any](value T) commitable[T] {
@@ -29,9 +30,23 @@ func (c *commitable[T]) Stage(value T) {
 
 func (c *commitable[T]) Commit() {
 	if val, ok := c.stagedValue.Get(); ok {
+		c.previousValue = typeutils.Some(c.comittedValue)
 		c.comittedValue = val
 		c.stagedValue = typeutils.None[T]()
 	}
+}
+
+// Undoes the last Commit. Does nothing if there is nothing to undo.
+func (c *commitable[T]) Rollback() {
+	if val, ok := c.previousValue.Get(); ok {
+		c.comittedValue = val
+		c.previousValue = typeutils.None[T]()
+	}
+}
+
+// Returns the value that the last Commit replaced, if any.
+func (c *commitable[T]) Previous() (T, bool) {
+	return c.previousValue.Get()
 }
 
 func (c *commitable[T]) Uncommit() {
